@@ -53,6 +53,38 @@ func constArith(r *runner.Rng, depth int, floats bool) *term.Term {
 
 var c02Lefts = []string{"A", "B", "Z", "I", "U", "U8", "U16", "U32", "U64", "I8", "I16", "I32", "I64", "F32", "F64", "X", "Y", "S", "T", "P", "AnyI", "AnyS", "AnyN", "NilIt", "It.ID", "PIt.ID", "Inc(A)", "FnI(B)", "len(Ints)", "A + 1", "Ints[0]", "MI[\"a\"]", "nil", "1", "2.0", "\"a\""}
 
+// c02NilSafeLeft: a left operand that may be nil at run time because it ends
+// in (or wraps) a nil-safe access, under the wrappers the membership rewrites
+// have to look through.
+func c02NilSafeLeft(r *runner.Rng, str bool) string {
+	bases := []string{"NilIt?.ID", "It.Next?.ID", "PIt.Next?.Next?.ID", "MkItem(Z)?.ID", "NilIt?.Vals[0]", "It.Next?.Vals[0]", "NilIt?.Double()", "It.Next?.Plus(1)", "PIt?.ID", "It.Next?.Next.ID"}
+	other := []string{"1", "A", "3", "FnI(2)"}
+	if str {
+		bases = []string{"NilIt?.Name", "It.Next?.Name", "MkItem(Z)?.Name", "NilIt?.Tags[0]", "NilIt?.Label()", "It.Next?.Next?.Name", "PIt?.Name"}
+		other = []string{`"a"`, "S", `"b"`}
+	}
+	x := r.Pick(bases)
+	for d := r.Intn(3); d > 0; d-- {
+		switch r.Intn(6) {
+		case 0:
+			x = fmt.Sprintf("(%s ? %s : %s)", r.Pick([]string{"P", "Q", "true", "false"}), x, r.Pick(other))
+		case 1:
+			x = fmt.Sprintf("(%s ? %s : %s)", r.Pick([]string{"P", "Q", "true", "false"}), r.Pick(other), x)
+		case 2:
+			if !str {
+				x = "+" + x
+			}
+		case 3:
+			x = "(" + x + ")"
+		case 4:
+			x = fmt.Sprintf("(%s ?: %s)", x, r.Pick(other))
+		default:
+			x = fmt.Sprintf("(%s ? %s : %s)", r.Pick([]string{"P", "Q"}), x, x)
+		}
+	}
+	return x
+}
+
 func c02Special(r *runner.Rng) (src string, t *term.Term, class string) {
 	lit := func() string {
 		switch r.Intn(3) {
@@ -64,7 +96,13 @@ func c02Special(r *runner.Rng) (src string, t *term.Term, class string) {
 			return r.Pick([]string{"1.5", "true", "nil", "A", "S"})
 		}
 	}
-	switch k := r.Intn(10); k {
+	switch k := r.Intn(11); k {
+	case 10: // possibly-nil left operand of a membership test that is rewritten
+		if r.Bool() {
+			return fmt.Sprintf("%s %s [%s]", c02NilSafeLeft(r, true), r.Pick([]string{"in", "not in"}), r.Pick([]string{`"a"`, `"a", "b"`, `"", "foo", "b"`})), nil, "nilsafe-in"
+		}
+		right := r.Pick([]string{"[1]", "[1, 2, 3]", "[256, 3, 8]", "1..3", "0..10", "[0, 2]"})
+		return fmt.Sprintf("%s %s %s", c02NilSafeLeft(r, false), r.Pick([]string{"in", "not in"}), right), nil, "nilsafe-in"
 	case 0: // constant arithmetic
 		t = constArith(r, 1+r.Intn(5), r.Chance(1, 3))
 		return term.Print(t, term.PrintOpts{}), t, "const-arith"
@@ -118,6 +156,11 @@ func c02Special(r *runner.Rng) (src string, t *term.Term, class string) {
 			if a < 0 {
 				rng = fmt.Sprintf("(-%d..-%d)", -a, -b)
 			}
+		}
+		if r.Chance(1, 8) {
+			// bounds whose distance overflows int
+			ext := []string{"9223372036854775807", "9223372036854775806", "-9223372036854775807", "4611686018427387904", "-4611686018427387904", "0", "-2", "1"}
+			rng = fmt.Sprintf("(%s..%s)", r.Pick(ext), r.Pick(ext))
 		}
 		forms := []string{"len(%s)", "%s[1]", "%s[A]", "map(%s, {# * 2})", "filter(%s, {# > A})", "A in %s", "%s == Ints", "%s[1:3]", "all(%s, {# > 0})", "count(%s, {# in 1..3})", "%s == [1, 2, 3]", "FnInts(%s)"}
 		return fmt.Sprintf(forms[r.Intn(len(forms))], rng), nil, "const-range"
@@ -328,6 +371,10 @@ func c02Corpus(c *runner.Ctx, idx uint64) {
 		"1 / 0", "1 % 0", "A > 0 ? 1 : 1 / 0", "count(Empty, {1 / 0 > #})", "1.0 / 0", "A / 0", "1 / (2 - 2)", "0 % (1 - 1)",
 		"2 ** 3 ** 2", "-2 ** 2", "9223372036854775807 + 1", "-9223372036854775807 - 2", "1 - 2 - 3", "100 / 7 / 2", "7 % 4 % 2", "- - 1", "+-+1",
 		`"a" + "b" + S`, `S + "a" + "b"`, "[1, 2, 3][5 * 5 - 25]",
+		// inputs of the recorded findings (folded array literals change their Go
+		// type; constants are not charged to the budget)
+		"FnAnys([1, 2, 3])", `FnAnys(["a", "b"])`, `FnAnys([1, "a"])`, "FnAnys([A, 2])", "len([1..600000, 1..600000])",
+		"len(-2..9223372036854775807)", "A in -4611686018427387904..0", "A in 1..2000000", "(9223372036854775806..-9223372036854775807)[1:3]",
 	}
 	for _, s := range srcs {
 		styles, seeds := EnvStyles(runner.NewRng(c.Seed, runner.HashString(s)), 4)
@@ -344,7 +391,7 @@ func c02Corpus(c *runner.Ctx, idx uint64) {
 // a result; it can only move the failure of that call to compile time.
 func c02ConstExpr(c *runner.Ctx, idx uint64) {
 	r := c.R
-	fns := []string{"FnI", "FnII", "FnS", "FnF", "FnB", "Div", "FnAny", "FnVar", "Inc", "Cat", "FnU8", "FnInts", "MkItem", "Fast", "EqAny"}
+	fns := []string{"FnI", "FnII", "FnS", "FnF", "FnB", "Div", "FnAny", "FnVar", "Inc", "Cat", "FnU8", "FnInts", "MkItem", "Fast", "EqAny", "MkBox", "MkBox"}
 	fn := r.Pick(fns)
 	arg := func(kind string) string {
 		switch kind {
@@ -357,7 +404,8 @@ func c02ConstExpr(c *runner.Ctx, idx uint64) {
 		case "bool":
 			return r.Pick([]string{"true", "false", "P", "not true", "FnB(true)", "1 < 2"})
 		case "any":
-			return r.Pick([]string{"1", `"a"`, "nil", "true", "1.5", "A", "[1, 2]", "FnAny(nil)", "FnAny(1)"})
+			// several values print alike under %v and differ in type
+			return r.Pick([]string{"1", `"a"`, "nil", "true", "1.5", "A", "[1, 2]", "FnAny(nil)", "FnAny(1)", `"1"`, "1.0", `"true"`, `"<nil>"`, `"1.5"`, "2", "2.0", `"[1 2]"`})
 		case "u8":
 			return r.Pick([]string{"1", "255", "200 + 50", "U8"})
 		case "ints":
@@ -366,37 +414,51 @@ func c02ConstExpr(c *runner.Ctx, idx uint64) {
 		return "1"
 	}
 	var call string
-	switch fn {
-	case "FnI", "Inc", "MkItem":
-		call = fmt.Sprintf("%s(%s)", fn, arg("int"))
-	case "FnII", "Div":
-		call = fmt.Sprintf("%s(%s, %s)", fn, arg("int"), arg("int"))
-	case "FnS":
-		call = fmt.Sprintf("FnS(%s)", arg("str"))
-	case "Cat":
-		call = fmt.Sprintf("Cat(%s, %s)", arg("str"), arg("str"))
-	case "FnF":
-		call = fmt.Sprintf("FnF(%s)", arg("float"))
-	case "FnB":
-		call = fmt.Sprintf("FnB(%s)", arg("bool"))
-	case "FnAny":
-		call = fmt.Sprintf("FnAny(%s)", arg("any"))
-	case "FnU8":
-		call = fmt.Sprintf("FnU8(%s)", arg("u8"))
-	case "FnInts":
-		call = fmt.Sprintf("FnInts(%s)", arg("ints"))
-	case "FnVar":
-		call = fmt.Sprintf("FnVar(%s, %s)", arg("int"), arg("int"))
-	case "Fast":
-		call = fmt.Sprintf("Fast(%s, %s)", arg("any"), arg("int"))
-	case "EqAny":
-		call = fmt.Sprintf("EqAny(%s, %s)", arg("any"), arg("any"))
+	mk := func() {
+		switch fn {
+		case "FnI", "Inc", "MkItem":
+			call = fmt.Sprintf("%s(%s)", fn, arg("int"))
+		case "FnII", "Div":
+			call = fmt.Sprintf("%s(%s, %s)", fn, arg("int"), arg("int"))
+		case "FnS":
+			call = fmt.Sprintf("FnS(%s)", arg("str"))
+		case "Cat":
+			call = fmt.Sprintf("Cat(%s, %s)", arg("str"), arg("str"))
+		case "FnF":
+			call = fmt.Sprintf("FnF(%s)", arg("float"))
+		case "FnB":
+			call = fmt.Sprintf("FnB(%s)", arg("bool"))
+		case "FnAny":
+			call = fmt.Sprintf("FnAny(%s)", arg("any"))
+		case "FnU8":
+			call = fmt.Sprintf("FnU8(%s)", arg("u8"))
+		case "FnInts":
+			call = fmt.Sprintf("FnInts(%s)", arg("ints"))
+		case "FnVar":
+			call = fmt.Sprintf("FnVar(%s, %s)", arg("int"), arg("int"))
+		case "Fast":
+			call = fmt.Sprintf("Fast(%s, %s)", arg("any"), arg("int"))
+		case "EqAny":
+			call = fmt.Sprintf("EqAny(%s, %s)", arg("any"), arg("any"))
+		case "MkBox":
+			// the constant is a struct holding slices
+			call = fmt.Sprintf(r.Pick([]string{"MkBox(%s).N", "MkBox(%s).Xs[0]", "len(MkBox(%s).Xs)", "MkBox(%s).Xs", "MkBox(%s).Any"}), arg("int"))
+		}
 	}
+	mk()
 	forms := []string{"%s", "%s == %s", "[%s, %s]", "P ? %s : %s", "FnAny(%s) == FnAny(%s)", "{\"a\": %s, \"b\": %s}", "A > 100 and %s == %s"}
 	f := forms[r.Intn(len(forms))]
 	src := call
 	if strings.Count(f, "%s") == 2 {
-		src = fmt.Sprintf(f, call, call)
+		// the same call twice, or two calls of the function with their own
+		// arguments
+		first := call
+		// (MkItem's result points into the environment it was taken from: a
+		// constant and a run-time result of it are not comparable)
+		if r.Bool() && fn != "MkItem" {
+			mk()
+		}
+		src = fmt.Sprintf(f, first, call)
 	}
 	c.Begin(src)
 	// the sample environment must be populated: ConstExpr fetches the function
